@@ -241,6 +241,10 @@ def run_case(ctx, pydsdl, probe, case, workdir):
 def run_shard(ctx):
     pydsdl = import_pydsdl()
     probe = PrintProbe(pydsdl)
+    from pv.mon.conserve import Conserve
+    from pv.mon.const import ConstMonitor
+
+    always_on = [Conserve(pydsdl).install(), ConstMonitor(pydsdl).install()]
     for i in range(ctx.share(ctx.params["n"])):
         if ctx.out_of_time():
             break
@@ -248,6 +252,8 @@ def run_shard(ctx):
         case = gen_case(random.Random(seed))
         case["seed"] = seed
         sp = case["special"]
+        for m in always_on:
+            m.bind(ctx, case)
         try:
             with ctx.watchdog(60):
                 run_case(ctx, pydsdl, probe, case, ctx.tmp)
